@@ -82,6 +82,28 @@ func checkSpendLoopExits(c *Ctx, pr *prioRoles, rule string) {
 								ok = true
 							case cs != nil && strings.HasPrefix(p.stopRoleOf(cs.State.Chan), "stop:"):
 								ok = true
+							case cs == nil && e2.Succ == 1:
+								// "none of the clauses tested so far": every clause that is still to
+								// come (and the default) must be an accepted way out
+								if iff2, isIf2 := e2.From.Instrs[len(e2.From.Instrs)-1].(*ssa.If); isIf2 {
+									if bo, isB := iff2.Cond.(*ssa.BinOp); isB {
+										if k, isK := constDuration(bo.Y); isK {
+											rest, all := 0, true
+											for _, c2 := range si.Cases {
+												if int64(c2.Idx) <= k {
+													continue
+												}
+												rest++
+												if !(strings.HasPrefix(p.chanRole(c2.State.Chan), "ticker:") || strings.HasPrefix(p.stopRoleOf(c2.State.Chan), "stop:")) {
+													all = false
+												}
+											}
+											if all && (rest > 0 || si.HasDefault) {
+												ok = true
+											}
+										}
+									}
+								}
 							}
 							return
 						}
